@@ -31,7 +31,11 @@ func NewProvider(fs afero.Fs, conf config.Config) (core.Provider, error) {
 	if err != nil {
 		return nil, xerrors.Errorf("cant create ReadSeekCloser: %w", err)
 	}
-	decoder, err := decoders.NewDecoder(conf, readSeeker)
+	// Limit counts delivered ammo, i.e. after the ChosenCases filter: it is enforced by the provider
+	// (runFullScan, runPreloaded), not by the decoder, which would count filtered out ammo too.
+	decoderConf := conf
+	decoderConf.Limit = 0
+	decoder, err := decoders.NewDecoder(decoderConf, readSeeker)
 	if err != nil {
 		return nil, xerrors.Errorf("decoder init error: %w", err)
 	}
